@@ -197,6 +197,8 @@ def classify(ops, res):
         m = re.search(r"ERROR: AddressSanitizer: (\S+)|runtime error: ([^\n]*)", res.stderr)
         tag = (m.group(1) or m.group(2)) if m else "crash"
         return f"crash:{info['opt']}:{tag[:40]}", f"harness aborted ({tag}) on ops {ops}"
+    if info["opt"] == "vdcma" and ("step-size-not-positive" in tags or "non-finite" in tags):
+        return ("F12:vdcma-nan-after-stagnation", f"VD-CMA reports NaN point / value / step size after stagnating on the sphere; ops {ops}")
     if tags:
         return f"oracle:{'+'.join(tags)}:{info['opt']}:{info['obj']}{'+box' if info['box'] else ''}", f"property oracle failed ({tags}: {res.oracle[0][-160:]}) on ops {ops}"
     return f"mismatch:{res.why}:{info['opt']}", f"model and implementation disagree ({res.why}) at line {res.diff_at} of ops {ops}"
